@@ -40,6 +40,7 @@ func init() {
 				{Name: "sessions", Variant: "plain", Cases: n, Run: c03case, CaseTimeout: 90 * time.Second,
 					Required: []string{"op_query", "op_execute", "op_batch", "op_prepare", "op_startup", "op_register", "op_auth_response", "v1", "v2", "v3", "v4", "v5", "compressed_requests", "named_values", "unset_values", "payloads", "objects_executed_again", "queries_released_to_the_pool"}},
 				{Name: "inexpressible", Variant: "plain", Cases: n / 20, Run: c03inexpr, CaseTimeout: 60 * time.Second, Required: []string{"inexpressible_requests", "payload_before_v4"}},
+				{Name: "compressed-sizes", Variant: "plain", Cases: 36, Shards: 4, Run: c03sizes, CaseTimeout: 5 * time.Minute, Required: []string{"compressed_bodies_of_swept_size"}},
 				{Name: "limits", Variant: "plain", Cases: 10, Shards: 5, Run: c03limits, CaseTimeout: 5 * time.Minute, Required: []string{"limit_cases"}},
 			}
 		},
@@ -1068,5 +1069,87 @@ func c03inexpr(c *runner.Ctx, i int) {
 			continue
 		}
 		c.Violation(fmt.Sprintf("C03:malformed:v%d:inexpressible", version), "the spec decoder rejects a frame the driver wrote: "+clipS(b), wit)
+	}
+}
+
+// c03sizes: requests whose (incompressible) body length sweeps every size around the block and buffer sizes a
+// compressor works with, sent over connections that negotiated compression: the node must be able to decompress
+// every body and find the value that was bound.
+func c03sizes(c *runner.Ctx, i int) {
+	comp := []string{"lz4", "snappy"}[i%2]
+	version := 3 + (i/2)%3
+	centre := []int{16341, 65536, 131072, 32768, 4096, 262144}[(i/6)%6]
+	cl := fakenode.NewCluster(1)
+	node := cl.Nodes[0]
+	node.Supported["COMPRESSION"] = []string{"snappy", "lz4"}
+	gen := func(n int) []byte {
+		b := make([]byte, n)
+		rand.New(rand.NewSource(int64(n)*7919 + 13)).Read(b)
+		return b
+	}
+	var pmu sync.Mutex
+	var problems []string
+	var flagged int64
+	node.Handler = func(sc *fakenode.ServerConn, req *fakenode.Req) {
+		switch req.Header.Op {
+		case cqlref.OpPrepare:
+			ps := &cqlref.PreparedSpec{ID: []byte("P:" + req.Statement), Bind: cqlref.Metadata{Global: true, ColCount: 1, Columns: []cqlref.Column{{Keyspace: "ks", Table: "t", Name: "v", Type: &cqlref.Type{ID: cqlref.TBlob}}}},
+				Result: cqlref.Metadata{Global: true, ColCount: 0}}
+			sc.Reply(req, cqlref.OpResult, nil, cqlref.BodyPrepared(sc.Version, ps))
+		case cqlref.OpExecute:
+			if req.Header.Flags&cqlref.FlagCompress != 0 {
+				atomic.AddInt64(&flagged, 1)
+			}
+			if req.Params == nil || len(req.Params.Values) != 1 || !bytes.Equal(req.Params.Values[0].Bytes, gen(len(req.Params.Values[0].Bytes))) {
+				pmu.Lock()
+				if len(problems) < 10 {
+					n := -1
+					if req.Params != nil && len(req.Params.Values) == 1 {
+						n = len(req.Params.Values[0].Bytes)
+					}
+					problems = append(problems, fmt.Sprintf("an EXECUTE arrived with a value (%d bytes) that is not the one bound", n))
+				}
+				pmu.Unlock()
+			}
+			sc.ReplyVoid(req)
+		default:
+			sc.ReplyVoid(req)
+		}
+	}
+	cfg := newCfg(cl, version)
+	cfg.Compressor = compressorByName(comp)
+	cfg.Timeout = 5 * time.Second
+	sess, err := cfg.CreateSession()
+	if err != nil {
+		c.Inconclusive("c03-sizes-session", err.Error())
+		return
+	}
+	defer sess.Close()
+	key := fmt.Sprintf("v%d %s, value sizes %d..%d", version, comp, centre-350, centre+350)
+	c.Eval(runner.H("c03sizes", version, comp, centre), true)
+	for n := centre - 350; n <= centre+350; n++ {
+		if n < 0 {
+			continue
+		}
+		err := sess.Query("INSERT INTO ks.t (v) VALUES (?) /* sizes */", gen(n)).Exec()
+		c.Add("compressed_bodies_of_swept_size", 1)
+		bad := cl.BadFramesCopy()
+		pmu.Lock()
+		probs := append([]string{}, problems...)
+		pmu.Unlock()
+		switch {
+		case len(bad) > 0:
+			c.Violation(fmt.Sprintf("C03:malformed:v%d:compressed-body:%s", version, comp), fmt.Sprintf("the node cannot read a request whose value has %d bytes: %s (%s)", n, clipS(bad[0]), key), map[string]interface{}{"value_bytes": n, "bad_frame": clipS(bad[0])})
+			return
+		case len(probs) > 0:
+			c.Violation(fmt.Sprintf("C03:execute:v%d:compressed-value-changed:%s", version, comp), fmt.Sprintf("%s (bound value: %d bytes; %s)", probs[0], n, key), map[string]interface{}{"value_bytes": n})
+			return
+		case err != nil:
+			c.Violation(fmt.Sprintf("C03:execute:v%d:exec-error:compressed:%s", version, comp), fmt.Sprintf("a request whose value has %d bytes failed: %v (%s)", n, err, key), map[string]interface{}{"value_bytes": n})
+			return
+		}
+	}
+	if atomic.LoadInt64(&flagged) == 0 {
+		c.Violation(fmt.Sprintf("C03:execute:v%d:not-compressed:%s", version, comp), "compression was negotiated but no EXECUTE arrived compressed ("+key+")", nil)
 	}
 }
